@@ -80,6 +80,7 @@ def run(ctx):
     R.rule("C12-R9", "a block comment is scanned from behind its opener to the first `*/`, with no escape character", floor=2)
     R.rule("C12-R10", "a literal is not split off an identifier: the character behind it is tested against every identifier character when the literal is spelled like one", floor=1)
     R.rule("C12-R11", "literal suffix loop: a branch that has consumed characters goes round again (exponent, f, l, u may follow each other in any order)", floor=2)
+    R.rule("C12-R12", "an identifier is taken for a word operator (sizeof, new, delete, ...) only when the whole identifier is that word", floor=1)
     R.rule("C12-R4", "escape/unescape delimiters agree between printers and tokenizer; operator consumed by match length", floor=6)
 
     methods = [f for f in prog.methods_of("occa::lang::tokenizer_t")]
@@ -393,6 +394,22 @@ def run(ctx):
     R.ob("C12-R9", skipped, bc.q, "the opener is stepped over before the scan", bc.site(adv[0]) if adv else "%s:%d" % (bc.relfile, bc.d["line"]),
          "the scan starts behind `/*`" if skipped else "the scan starts on the opener's own `*`: `/*/` is taken for a complete comment and the rest of it becomes live tokens")
     literal_boundary(prog, R)
+    pfi = prog.fn(TK + "peekForIdentifier")
+    rets = [r for r in pfi.walk() if r["k"] == "ReturnStmt" and "tokenType::op" in render(r, False)]
+    if not rets:
+        raise AnalysisBroken("peekForIdentifier: `return tokenType::op` not found")
+    for r in rets:
+        guards = [a_ for a_ in pfi.ancestors(r) if a_["k"] == "IfStmt"]
+        ctext = " ".join(noid(render(kids(g_)[0], False)) for g_ in guards)
+        lookups = [c for g_ in guards for c in walk(kids(g_)[0]) if is_call(c) and "operators" in noid(render(call_object(c), False) if call_object(c) is not None else "")]
+        names = [callee(c).split("::")[-1] for c in lookups]
+        exact = bool(lookups) and all(n in ("has", "get") for n in names)
+        if not exact and any(n in ("getLongest", "getFirst", "trieGetLongest") for n in names):
+            # a prefix lookup is exact only together with a test that the match covers the whole identifier
+            exact = ("length" in ctext and ("size()" in ctext or "length()" in ctext)) and "==" in ctext
+        R.ob("C12-R12", exact, pfi.q, "word operator:exact match of the identifier (%s)" % ", ".join(names), pfi.site(r),
+             "operators.has(identifier)" if exact else
+             "the identifier is looked up by PREFIX (%s): `newton`, `deleted`, `sizeof_x` are peeked as operators, getOperatorToken() consumes only the operator part, and one identifier becomes two tokens" % ", ".join(names))
     suffix_loop(ctx.program(UNITS + ["src/types/primitive.cpp"], thorough_all=False), R)
     # operators are split by longest match: the lookup structure is the trie (shared clause with C28)
     from rules import c28
